@@ -20,13 +20,14 @@ type produceWire struct {
 	mu      sync.Mutex
 	pending map[string]*sentBatch // conn/corr/tp -> batch awaiting the broker's verdict
 	// decoded records to compare against the history at the end
-	seen     []wireRec
-	model    map[string]*seqState      // pid/topic/part -> reference sequence state (C29)
-	cliEnds  map[string]map[int32]bool // pid/epoch/topic/part -> sequences at which a written batch ended
-	cliSeen  map[string]map[int32]bool
-	nreq     int
-	maxFrame int
-	maxBatch int
+	seen       []wireRec
+	model      map[string]*seqState      // pid/topic/part -> reference sequence state (C29)
+	unobserved map[string]bool           // pid/topic/part whose model may lag (verdicts lost with a connection)
+	cliEnds    map[string]map[int32]bool // pid/epoch/topic/part -> sequences at which a written batch ended
+	cliSeen    map[string]map[int32]bool
+	nreq       int
+	maxFrame   int
+	maxBatch   int
 }
 
 type sentBatch struct {
@@ -35,6 +36,7 @@ type sentBatch struct {
 	epoch   int16
 	seq     int32
 	vals    []string
+	conn    *Conn // the connection that carried it to the broker
 }
 
 type wireRec struct {
@@ -46,7 +48,7 @@ type wireRec struct {
 }
 
 func newProduceWire(s *Sim, st *prodState) *produceWire {
-	return &produceWire{s: s, st: st, seqs: map[string]map[int32][]string{}, pending: map[string]*sentBatch{}, model: map[string]*seqState{}, cliEnds: map[string]map[int32]bool{}, cliSeen: map[string]map[int32]bool{}}
+	return &produceWire{s: s, st: st, seqs: map[string]map[int32][]string{}, pending: map[string]*sentBatch{}, model: map[string]*seqState{}, unobserved: map[string]bool{}, cliEnds: map[string]map[int32]bool{}, cliSeen: map[string]map[int32]bool{}}
 }
 
 func (w *produceWire) onReq(r *WireReq) {
@@ -145,7 +147,7 @@ func (w *produceWire) onReq(r *WireReq) {
 				k := fmt.Sprintf("%d/%d/%s", b.ProducerID, b.ProducerEpoch, tp)
 				if !r.NoProc {
 					w.mu.Lock()
-					w.pending[fmt.Sprintf("%s/%d/%s", r.Conn.Name, r.Corr, tp)] = &sentBatch{key: k, tp: tp, pid: b.ProducerID, epoch: b.ProducerEpoch, seq: b.BaseSequence, vals: vals}
+					w.pending[fmt.Sprintf("%s/%d/%s", r.Conn.Name, r.Corr, tp)] = &sentBatch{key: k, tp: tp, pid: b.ProducerID, epoch: b.ProducerEpoch, seq: b.BaseSequence, vals: vals, conn: r.Conn}
 					w.mu.Unlock()
 				}
 			} else if b.ProducerID != -1 {
@@ -358,6 +360,36 @@ func (w *produceWire) brokerSeq(sb *sentBatch, tp string, code int16, base int64
 		w.model[mk] = st
 	}
 	desc := fmt.Sprintf("producer %d epoch %d %s batch [%d,+%d)", sb.pid, sb.epoch, tp, sb.seq, n)
+	// Requests that reached the broker on a connection that died before
+	// their response was written were (probably) processed, but their
+	// verdict was never seen: from then on the model may lag behind the
+	// broker for this producer and partition. It then follows the broker
+	// instead of judging it (the end-to-end clause still judges the log).
+	for _, o := range w.pending {
+		if o != sb && o.pid == sb.pid && o.tp == tp && o.conn != nil && o.conn.dead.Load() {
+			w.unobserved[mk] = true
+		}
+	}
+	if w.unobserved[mk] {
+		s.Probe("broker_model_follows_after_unobserved_verdicts")
+		if code == 0 {
+			if st.seen && sb.epoch == st.epoch {
+				for _, e := range st.win {
+					if e.first == sb.seq && e.next == nx {
+						return
+					}
+				}
+			}
+			if !st.seen || sb.epoch >= st.epoch {
+				st.seen, st.epoch, st.next = true, sb.epoch, nx
+				st.win = append(st.win, seqEnt{sb.seq, nx, base})
+				if len(st.win) > 5 {
+					st.win = st.win[1:]
+				}
+			}
+		}
+		return
+	}
 	if !st.seen || sb.epoch != st.epoch {
 		if st.seen && sb.epoch < st.epoch {
 			return
